@@ -1,6 +1,6 @@
 SPECIFICATION Spec
-CONSTANTS Design = "pinned"
+CONSTANTS Design = "asbuilt"
           MaxUses = 4
-          BackRef = FALSE
+          BackRef = TRUE
 INVARIANTS UsedLikeFresh
 CHECK_DEADLOCK FALSE
